@@ -376,7 +376,7 @@ def gen_id_history(rng, pool):
         ev.append(("set", "mdd=1"))
     for _ in range(rng.randint(1, 4)):
         for _ in range(rng.choice([0, 1, 1, 2, 3])):
-            ev.append(("set", rng.choice(["rd1", "rd2", "rd1", "rd2", "rd0", "ld1", "ld2", "rp2", "rp2", "xs", "rs", "xa", "in", "id1", "id2", "mdd=1", "mdd=0", "n"])))
+            ev.append(("set", rng.choice(["rd1", "rd2", "rd1", "rd2", "rd0", "ld1", "ld2", "ld1", "ld2", "rp2", "rp2", "xs", "rs", "xa", "in", "id1", "id2", "mdd=1", "mdd=0", "n"])))
         if rng.random() < 0.25:
             ks = [rng.choice(["z1", "z2", "z0", "z0", "zp", "z3"]) for _ in range(rng.randint(1, 3))]
             ev.append(("oneshot", [(k, rng.choice(pool[k])) for k in ks]))
@@ -387,6 +387,8 @@ def gen_id_history(rng, pool):
                 else:
                     k = rng.choice(["z1", "z2", "z1", "z2", "z0", "zp", "z3"])
                     ev.append(("frame", k, rng.choice(pool[k]), rng.choice(["La:r", "Lh:r", "L1:r", "L7:100", "Ma:r", "La:1"])))
+                    if rng.random() < 0.5:
+                        ev.append(("set", rng.choice(["xs", "xs", "rs", "in", "xa"])))     # lets the history go on after a refused frame
     return ev
 
 
@@ -402,6 +404,16 @@ def corpus_id_histories(pool):
     hs.append(([("set", "mdd=1"), ("set", "rd1"), ("set", "rd2"), ("oneshot", [("z1", z1), ("z0", z0), ("z2", z2)])], "two DDicts, one call over frames naming each"))
     hs.append(([("set", "mdd=1"), ("set", "rd1"), ("set", "xa"), ("set", "mdd=1"), ("set", "rd2"), ("frame", "z1", z1, "La:r")], "parameter reset drops the referenced DDicts"))
     hs.append(([("set", "rd1"), ("set", "rd2"), ("frame", "z1", z1, "La:r")], "without the parameter the last reference wins"))
+    # d0ddbff : a dictionary loaded into the context (or a pending prefix) is never replaced by the selection
+    hs.append(([("set", "mdd=1"), ("set", "rd2"), ("set", "ld1"), ("frame", "z2", z2, "La:r")], "referenced DDict 2, dictionary 1 loaded, frame naming 2 (refused)"))
+    hs.append(([("set", "mdd=1"), ("set", "rd2"), ("set", "ld1"), ("frame", "z1", z1, "Lh:r"), ("frame", "z0", z0, "La:r")], "referenced DDict 2, dictionary 1 loaded, its own frame"))
+    hs.append(([("set", "mdd=1"), ("set", "rd2"), ("set", "ld1"), ("oneshot", [("z1", z1), ("z2", z2)])], "referenced DDict 2, dictionary 1 loaded, one call over frames naming 1 and 2"))
+    hs.append(([("set", "mdd=1"), ("set", "rd1"), ("set", "rp2"), ("oneshot", [("z1", z1)])], "prefix pending, one call over a frame naming the referenced DDict (refused)"))
+    # b15fdb6 : a refused frame leaves the prefix pending (frame start without the single-pass shortcut), the retry finds it
+    hs.append(([("set", "rp2"), ("frame", "z1", z1, "L1:r"), ("set", "xs"), ("frame", "zp", zp, "La:r")], "prefix, refused frame, session reset, prefix frame"))
+    hs.append(([("set", "mdd=1"), ("set", "rd1"), ("set", "rp2"), ("frame", "z1", z1, "Lh:r"), ("set", "xs"), ("frame", "zp", zp, "L1:r"), ("frame", "z1", z1, "La:r")],
+               "prefix pending hides the referenced DDict, refused, reset, prefix frame, then nothing current"))
+    hs.append(([("set", "ld2"), ("frame", "z1", z1, "L7:100"), ("set", "xs"), ("frame", "z2", z2, "La:r")], "loaded dictionary, refused frame, reset, its own frame"))
     return hs
 
 
@@ -437,8 +449,8 @@ def run_dict_ids(ctx, rng, cd, tie, n):
         if not m.startswith("OK "):
             continue
         items = [x for x in m.split(" ")[1].split(";") if x]
-        ops, stream, plan, mi, stop = [], b"", [], 0, False       # plan: what the implementation must show, in order
-        for e in ev:
+        ops, stream, plan, mi, stop = ["ce"], b"", [("set", "ce")], 0, False       # plan: what the implementation must show, in order
+        for ei, e in enumerate(ev):
             if stop:
                 break
             fr = []
@@ -467,7 +479,14 @@ def run_dict_ids(ctx, rng, cd, tie, n):
                 stream += f["frame"]
                 plan.append(("stream", f["content"], len(f["frame"]), ok, k))
                 if not ok:
-                    stop = True               # the harness ends a history at the first error
+                    # after an error only a resetting call is legal; the state the model predicts is that of a frame start WITHOUT the
+                    # single-pass shortcut (with it a pending prefix is fetched before the frame is refused)
+                    nxt_ev = ev[ei + 1] if ei + 1 < len(ev) else None
+                    if not (nxt_ev and nxt_ev[0] == "set" and nxt_ev[1] in ("xs", "rs", "in", "id1", "id2", "xa", "n") and seg in ("Lh:r", "L1:r", "L7:100", "La:1")
+                            and len(f["frame"]) > 7):
+                        stop = True
+                    else:
+                        plan.append(("q", q))     # dctx->ddict / dctx->dictUses right after the refusal (b15fdb6: a pending prefix stays pending)
                 else:
                     plan.append(("q", q))
             else:
